@@ -33,6 +33,8 @@ func runC14(c *core.Ctx) {
 	c.Rule("TRG", "Trigger reads the right end / order of the container")
 	c.Rule("AVG", "average = running sum / running count")
 	checkAverageTrigger(c)
+	c.Rule("PROTO", "aggregate prototypes hand out fresh state")
+	checkPrototypeFreshState(c)
 	c.Rule("ABS4", "key comparators are ascending")
 
 	// INV
@@ -314,5 +316,59 @@ func checkAverageTrigger(c *core.Ctx) {
 		c.Decide(bad == "", "AVG", key, fr.Decl.Pos(), 1, "sum of the kind / count", bad)
 	}
 	c.Floor("AVG", 3, "AverageInt, AverageFloat, AverageDuration")
+	_ = n
+}
+
+// checkPrototypeFreshState (PROTO): an aggregate prototype hands out a *new* aggregate on every call: nothing the
+// returned closure puts into the aggregate is created once outside it (only the prototype's parameters may be shared).
+// State created outside is shared by all groups, and every group reports the aggregate over all of them.
+func checkPrototypeFreshState(c *core.Ctx) {
+	p := c.Prog
+	n := 0
+	for _, fr := range p.AllFuncs("aggregates") {
+		if !strings.HasPrefix(fr.Decl.Name.Name, "New") || !strings.HasSuffix(fr.Decl.Name.Name, "Prototype") || fr.Decl.Recv != nil {
+			continue
+		}
+		info := fr.Info()
+		name := p.FName(fr)
+		// the returned closure
+		var lit *ast.FuncLit
+		for _, s := range fr.Decl.Body.List {
+			if rs, ok := s.(*ast.ReturnStmt); ok && len(rs.Results) == 1 {
+				if l, ok := rs.Results[0].(*ast.FuncLit); ok {
+					lit = l
+				}
+			}
+		}
+		if lit == nil {
+			continue
+		}
+		n++
+		c.SawFunc(name)
+		params := map[types.Object]bool{}
+		for _, f := range fr.Decl.Type.Params.List {
+			for _, nm := range f.Names {
+				params[info.ObjectOf(nm)] = true
+			}
+		}
+		bad := ""
+		ast.Inspect(lit.Body, func(nd ast.Node) bool {
+			id, ok := nd.(*ast.Ident)
+			if !ok {
+				return true
+			}
+			v, ok := info.Uses[id].(*types.Var)
+			if !ok || v.IsField() || params[v] || v.Pkg() == nil || v.Parent() == v.Pkg().Scope() {
+				return true
+			}
+			// declared in the prototype function but outside the closure
+			if v.Pos() >= fr.Decl.Body.Pos() && v.Pos() < lit.Pos() {
+				bad = fmt.Sprintf("%s: %s is created once in the prototype and captured by the closure: every aggregate handed out shares it", p.Pos(id.Pos()), id.Name)
+			}
+			return true
+		})
+		c.Decide(bad == "", "PROTO", name, fr.Decl.Pos(), 1, "each call of the prototype builds its aggregate from fresh state", bad)
+	}
+	c.Floor("PROTO", 8, "count, sum×3, avg×3, min, max, array, distinct prototypes")
 	_ = n
 }
